@@ -669,3 +669,5 @@ import obligations.C16  # noqa: E402,F401
 
 alias("C01.literals_survive_being_rerendered", "C16.rerendered_literal_round_trip", "a string literal of a script statement is re-rendered before it is executed: any text (backslashes, quotes, escapes) must reach the engine as the same value")
 alias("C01.script_statements_store_what_single_statements_store", "C16.execute_string_equals_one_by_one", "values written by a statement of an execute_string script equal those written by executing the statement alone")
+
+alias("C01.rows_are_not_dropped_by_unrelated_noop_patterns", "C16.nop_regexes_only_noop_matches", "a statement that merely CONTAINS the text of a no-op pattern (in a literal or a bound value) is executed: every written row is stored")
